@@ -390,16 +390,20 @@ func (n *ProtoNode) UnmarshalJSON(b []byte) error {
 		return err
 	}
 
-	n.data = s.Data
-	// Links may not be sorted after deserialization, but we don't change
-	// them until we mutate this node since we're representing the current,
-	// as-serialized state. So n.linksDirty is not set here.
-	n.links = s.Links
+	// Validate before touching the node: returning an error after data and
+	// links were replaced (but with the cached encoding still in place) would
+	// leave a node whose RawData()/Cid() describe the old content.
 	for _, lnk := range s.Links {
 		if err := checkLink(lnk); err != nil {
 			return err
 		}
 	}
+
+	n.data = s.Data
+	// Links may not be sorted after deserialization, but we don't change
+	// them until we mutate this node since we're representing the current,
+	// as-serialized state. So n.linksDirty is not set here.
+	n.links = s.Links
 
 	n.encoded = nil
 	return nil
